@@ -208,3 +208,37 @@ def expand_through(ctx: Ctx, expr: ast.expr, helper: FuncInfo, caller: FuncInfo,
         if not done:
             out.append(x)
     return out
+
+
+_MUTATORS = {"pop", "popitem", "clear", "update", "setdefault", "__setitem__", "__delitem__", "append", "extend", "insert",
+             "remove", "sort", "reverse", "add", "discard"}
+
+
+def param_mutations(ctx: Ctx, fi: FuncInfo, pname: str, depth: int = 2, seen=None):
+    """[(function, node)] operations that modify the object passed as parameter `pname` of `fi`: mutating method
+    calls, item stores / deletes, augmented item assignment - in fi and in repo functions it hands the object to."""
+    seen = seen if seen is not None else set()
+    key = (ctx.types.fkey(fi), pname)
+    if key in seen:
+        return []
+    seen.add(key)
+    out = []
+    for n in ctx.types.nodes_in(fi):
+        if isinstance(n, ast.Call) and isinstance(n.func, ast.Attribute) and isinstance(n.func.value, ast.Name) \
+                and n.func.value.id == pname and n.func.attr in _MUTATORS:
+            out.append((fi, n))
+        elif isinstance(n, ast.Subscript) and isinstance(n.ctx, (ast.Store, ast.Del)) and isinstance(n.value, ast.Name) and n.value.id == pname:
+            out.append((fi, n))
+        elif isinstance(n, ast.Call) and depth > 0:
+            tg = ctx.types.resolve_call(n, fi)
+            if tg.by_name:
+                continue
+            for g in tg.repo:
+                for gp, arg in ctx.types.bind_args(g, n).items():
+                    if isinstance(arg, ast.Name) and arg.id == pname:
+                        out += param_mutations(ctx, g, gp, depth - 1, seen)
+    # a rebinding of the name (args = dict(args)) makes later operations act on a private copy
+    rebinds = [b for k, b in ctx.types.local_bindings(fi, pname) if k != "param"]
+    if rebinds:
+        return []
+    return out
